@@ -115,7 +115,7 @@ impl Property for C10 {
         ]
     }
     fn expected_probes(&self) -> Vec<&'static str> {
-        vec!["success", "flag_mismatch", "parity_error", "short_block", "long_block", "verify_ok", "verify_mismatch", "past_end", "de_zero", "d_is_ff", "ix_wraps", "ix_in_rom", "block_crosses_128", "empty_block", "paging_locked_then_ignored_write", "rewind_between_requests", "rewind_after_end_of_tape", "play_stop_between_requests", "second_tape_inserted", "breakpoints_inside_the_rom_routine"]
+        vec!["success", "flag_mismatch", "parity_error", "short_block", "long_block", "verify_ok", "verify_mismatch", "past_end", "de_zero", "d_is_ff", "ix_wraps", "ix_in_rom", "block_crosses_128", "empty_block", "paging_locked_then_ignored_write", "rewind_between_requests", "rewind_after_end_of_tape", "play_stop_between_requests", "second_tape_inserted", "breakpoints_inside_the_rom_routine", "other_instance_without_rom_ran_before", "scenario_in_a_process_of_its_own"]
     }
 
     fn gen(&self, rng: &mut Rng, _tier: Tier, _idx: u64) -> Scenario {
@@ -131,6 +131,8 @@ impl Property for C10 {
         sc.set("pg_ignored", rng.range(0, 255));
         let pg_between = rng.chance(1, 3);
         sc.set("debug_bp", rng.chance(1, 6) as i64);
+        sc.set("primer", rng.chance(1, 10) as i64);
+        sc.set("fresh", (_idx % 500 == 77) as i64);
         let rewinds = rng.chance(1, 3);
         let nb = rng.range(0, 6) as usize;
         let mut blocks: Vec<Vec<u8>> = vec![];
@@ -195,7 +197,32 @@ impl Property for C10 {
         let img = sc.ops.iter().find(|o| o.k == "tape").map(|o| o.b.clone()).unwrap_or_default();
         let (mut blocks, mut tail) = tape::tap_blocks(&img);
         // fast loading enabled in the settings or switched on afterwards through the setter
+        // process-wide state (a lazily built static, say) cannot be seen from inside a process that has run thousands
+        // of machines already: a few scenarios per batch are executed in a process of their own, where the machine
+        // without ROM is the very first one
+        if sc.get("fresh") != 0 {
+            ctx.probe("scenario_in_a_process_of_its_own");
+            let mut child = sc.clone();
+            child.set("fresh", 0);
+            child.set("primer", 1);
+            let r = crate::runner::run_in_fresh_process("C10", &child).map_err(|x| Fail::new("C10.harness_fresh_process", "", x))?;
+            if let Some((site, witness, detail)) = r.fails.into_iter().next() {
+                return Err(Fail::new(&site, &format!("{},own_process=1", witness), format!("in a process of its own, after a machine without ROM ran first: {}", detail)));
+            }
+            return Ok(());
+        }
         let late = sc.get("mem_seed") & 1 == 1;
+        // another machine of the same model lived in this process before: built without the embedded ROM, its CPU
+        // ran through the loader's addresses over whatever its empty ROM holds. Nothing of it may reach this one.
+        if sc.get("primer") != 0 {
+            ctx.probe("other_instance_without_rom_ran_before");
+            let mut p = new_emu(&MCfg { m128, fastload: true, rom: false, ..Default::default() });
+            let mut st = cpu_state(&mut p);
+            st.pc = 0x0556;
+            st.sp = 0x9000;
+            st.to_impl(p.verif_cpu());
+            let _ = run_frames(&mut p, 1);
+        }
         let cfg = MCfg { m128, fastload: !late, ..Default::default() };
         let mut e = new_emu(&cfg);
         if late {
